@@ -12,6 +12,7 @@ RULE = (
     "all ten kinds, four projectiles, all heavynesses, PTO 0..2 with SV keys, TMC 0..3, y classes {->0+, bulk, =1}; y echoed. "
     "Distinct = (xs kind, heavyness, process, projectile, TMC, y class); non-trivial = at least two of the three SF tensors non-zero."
     " One case in four adds the twin of a bulk point with x and y exchanged at the same Q2."
+    " Half of the cases ask the same cross-section kind for a second heavyness (with its own F2/FL/F3) and repeat the first point, so that every (kind, x, y, Q2, projectile) is evaluated several times within the judged run; all of them are judged."
 )
 ASSUMPTIONS = ["GeV^-2 -> 1e-38 cm^2 conversion 3.893793e10 (pb: /100) as documented for the CHORUS/NuTeV/FPF normalisations"]
 RTOL = 1e-12
@@ -56,7 +57,7 @@ def budget(tier):
 
 def floor(tier):
     return dict(min_conclusive=60 if tier == "quick" else 1200, min_nontrivial=40 if tier == "quick" else 300,
-                classes=cards.XSS + ["y->0", "y=1", "tmc", "prerun"], min_compared=2000)  # fmt: skip
+                classes=cards.XSS + ["y->0", "y=1", "tmc", "prerun", "repeated-evaluation"], min_compared=2000)  # fmt: skip
 
 
 def cases(tier, rng):
@@ -84,7 +85,7 @@ def cases(tier, rng):
                 if p["ycls"] == "bulk" and g["xgrid"][1] * 2.0 <= p["y"] <= 0.8 and p["x"] <= 0.98:
                     pts.append(dict(p, x=p["y"], y=p["x"], cls="swapped", ycls="bulk"))
                     break
-        out.append(dict(id=f"c11-{i}", kind=kind, heavy=heavy, grid=g, points=pts, prerun=bool(i % 3 == 1), **cfg))
+        out.append(dict(id=f"c11-{i}", kind=kind, heavy=heavy, grid=g, points=pts, prerun=bool(i % 3 == 1), sibling=bool((i // len(cards.XSS)) % 2 == 0), **cfg))
     return out
 
 
@@ -95,9 +96,16 @@ def run_case(case):
     sfs = ["g4", "gL", "g1"] if kind == "g5" else ["F2", "FL", "F3"]
     pts_sf = [dict(x=p["x"], Q2=p["Q2"]) for p in case["points"]]
     pts_xs = [dict(x=p["x"], Q2=p["Q2"], y=p["y"]) for p in case["points"]]
-    obsd = {f"{kind}_{h}": pts_xs}
-    for s in sfs:
-        obsd[f"{s}_{h}"] = pts_sf
+    # the same kind for a second heavyness and a repeated first point: every (kind, x, y, Q2, projectile) is evaluated several times in the
+    # judged run, so whatever is remembered about such a point (and edited afterwards) meets its next use
+    hs = [h] + ([{"total": "light", "light": "total"}.get(h, "total")] if case.get("sibling") else [])
+    if case.get("sibling"):
+        pts_sf, pts_xs, case = pts_sf + [dict(pts_sf[0])], pts_xs + [dict(pts_xs[0])], dict(case, points=case["points"] + [dict(case["points"][0])])
+    obsd = {}
+    for h_ in hs:
+        obsd[f"{kind}_{h_}"] = [dict(p) for p in pts_xs]
+        for s in sfs:
+            obsd[f"{s}_{h_}"] = [dict(p) for p in pts_sf]
     ob = cards.observables(obsd, xgrid=g["xgrid"], deg=g["deg"], is_log=g["is_log"], **case["obs"])
     if case.get("prerun"):
         # the same cross-section requests first under the other processes in this process: whatever the code memoises about a
@@ -116,7 +124,9 @@ def run_case(case):
         classes.add("prerun")
     compared, margin, sample = 0, 0.0, None
     proj = case["obs"]["ProjectileDIS"]
-    for i, p in enumerate(case["points"]):
+    if case.get("sibling"):
+        classes.add("repeated-evaluation")
+    for h, i, p in [(h_, i_, p_) for h_ in hs for i_, p_ in enumerate(case["points"])]:
         xs = out[f"{kind}_{h}"][i]
         parts = [out[f"{s}_{h}"][i] for s in sfs]
         c = coeffs(kind, p["x"], p["y"], p["Q2"], proj, th["MP"], th["MW"], th["GF"])
